@@ -390,6 +390,7 @@ def _declare_missing(text, terms):
 def main():
     import logging
     logging.disable(logging.CRITICAL)       # the real code logs while the bounded cases run; keep the check output readable
+    sys.unraisablehook = lambda *a: None    # __del__ of real objects collected after their event loop was closed
     ap = argparse.ArgumentParser()
     ap.add_argument('prop', nargs='?')
     ap.add_argument('--tier', default=os.environ.get('VERIF_TIER', 'quick'))
